@@ -172,7 +172,6 @@ impl<V: fmt::Debug + Clone, T: MapView<Value = V> + Clone> MapView for PrefixedM
         self.0
             .keys()
             .into_iter()
-            .filter(|key| key.as_str().starts_with(&self.1))
             .map(|key| Identifier::from(format!("{}{}", self.1, key)))
             .collect()
     }
@@ -196,15 +195,16 @@ impl<V: fmt::Debug + Clone, T: MapView<Value = V> + Clone> MapView for PrefixedM
 #[derive(Debug, Clone)]
 pub(crate) struct LimitedMapView<V: fmt::Debug + Clone, T: MapView<Value = V> + Clone>(
     pub T,
-    pub HashSet<Identifier>,
+    pub IndexSet<Identifier>,
 );
 
 impl<V: fmt::Debug + Clone, T: MapView<Value = V> + Clone> LimitedMapView<V, T> {
     pub fn safelist(map: T, keys: &HashSet<Identifier>) -> Self {
-        let keys = keys
-            .iter()
-            .copied()
-            .filter(|key| map.contains_key(*key))
+        // keep the order of the underlying map so that listings are deterministic
+        let keys = map
+            .keys()
+            .into_iter()
+            .filter(|key| keys.contains(key))
             .collect();
 
         Self(map, keys)
@@ -256,7 +256,10 @@ impl<V: fmt::Debug + Clone, T: MapView<Value = V> + Clone> MapView for LimitedMa
     }
 
     fn iter(&self) -> Vec<(Identifier, Self::Value)> {
-        unimplemented!()
+        self.1
+            .iter()
+            .filter_map(|key| self.0.get(*key).map(|value| (*key, value)))
+            .collect()
     }
 }
 
